@@ -30,7 +30,7 @@ type c12Case struct {
 }
 
 var c12APIs = []string{"snap", "json", "yaml", "ssnap", "sjson"}
-var c12OptSets = []string{"none", "ext", "filename", "dir", "update", "json", "all"}
+var c12OptSets = []string{"none", "ext", "filename", "dir", "update", "json", "all", "jsonnoindent"}
 
 func c12Opts(set, dir string) []func(*Config) {
 	o := []func(*Config){Dir(dir)}
@@ -57,6 +57,16 @@ func c12Opts(set, dir string) []func(*Config) {
 		o = append(o, c12SharedJSON)
 	case "basejson+more":
 		o = append(o, c12SharedJSON, JSON(JSONConfig{Indent: "\t", SortKeys: false, Width: 3}))
+	case "jsonnoindent":
+		// a JSON option that leaves Indent at its zero value (documents are rendered without indentation)
+		o = append(o, JSON(JSONConfig{SortKeys: true}))
+	case "sharedname":
+		// ONE Filename option value (ending in what looks like a snapshot suffix) shared by the Configs of the case
+		o = append(o, c12SharedName)
+	case "ext+sharedname":
+		o = append(o, Ext(".json"), c12SharedName)
+	case "sharedname+ext":
+		o = append(o, c12SharedName, Ext(".json"))
 	case "json":
 		o = append(o, JSON(JSONConfig{Indent: "   ", Width: 10, SortKeys: false}))
 	case "all":
@@ -236,7 +246,7 @@ func c12Gen(c *vfCtx, emit func(c12Case)) {
 		}
 	}
 	// two Configs built one after the other in one process, differing in their options: the second behaves as if it were alone
-	pairSets := []string{"none", "update", "updatefalse", "ext", "json", "filename", "basejson", "basejson+more", "jsonwidth", "filenameUpper", "extUpper"}
+	pairSets := []string{"none", "update", "updatefalse", "ext", "json", "filename", "basejson", "basejson+more", "jsonwidth", "filenameUpper", "extUpper", "jsonnoindent", "sharedname", "ext+sharedname", "sharedname+ext"}
 	for _, x := range pairSets {
 		for _, y := range pairSets {
 			if x == y {
@@ -268,6 +278,9 @@ func c12Gen(c *vfCtx, emit func(c12Case)) {
 
 // c12SharedJSON: an option VALUE (the func returned by snaps.JSON) reused across WithConfig calls, as a project-wide base would be
 var c12SharedJSON func(*Config)
+
+// c12SharedName: likewise a Filename option value
+var c12SharedName func(*Config)
 
 // c12Canary: what Configs WITHOUT any formatting option (and hence the package-level defaults) store for a fixed document.
 // Taken once per process before the first case touches anything, and again after every case: no call through any Config may change it.
@@ -328,6 +341,7 @@ func c12Pair(c *vfCtx, cs c12Case) {
 	run := func(d string, first string) (string, []string, []string) {
 		vfResetState(false, "", true)
 		c12SharedJSON = JSON(JSONConfig{Indent: "  ", SortKeys: true, Width: 40})
+		c12SharedName = Filename("api.snap.json")
 		var cfg *Config
 		if y == "basejson" {
 			// built BEFORE the other one: building another Config later must not change this one
@@ -359,9 +373,17 @@ func c12Pair(c *vfCtx, cs c12Case) {
 		// the two Configs address the same file exactly when their Dir / Filename / Ext options agree
 		addr := func(set string) string {
 			switch set {
+			case "sharedname":
+				if api == "sjson" {
+					return "sharedname.json" // the extension .json is MatchStandaloneJSON's default
+				}
+				return set
 			case "ext", "extUpper", "filename", "filenameUpper", "dir", "all":
 				return set
+			case "ext+sharedname", "sharedname+ext":
+				return "sharedname.json"
 			}
+
 			return "default"
 		}
 		sameFile := first != "" && len(cs.Seq) > 2 && addr(first) == addr(y)
